@@ -25,8 +25,12 @@ RULES = {
     "R6": "entries stay weak (shared rule S8): no memoised callable (lru_cache/cache/cached_property) of the journaling "
     "package dereferences a weak reference or reads changeable state - a cached referent is a strong reference held by the "
     "entry, and it answers `alive` after the object should have been collected",
+    "R7": "no instrumented operation on a half-built object: in the constructors of the IR classes, a call that hands `self` to a "
+    "method patched by wrap_ir_classes (graph.append(self) …) comes after the assignment of every field of the class's "
+    "__slots__ - inside a journal the patched method formats its argument for the entry (repr reads doc_string, name, …), so a "
+    "field assigned later makes the constructor raise AttributeError inside a journal and succeed outside",
 }
-FLOORS = {"R1": 43, "R2": 4, "R3": 40, "R4": 4, "R5": 40, "R6": 2}
+FLOORS = {"R1": 43, "R2": 4, "R3": 40, "R4": 4, "R5": 40, "R6": 2, "R7": 1}
 EXPLANATION = (
     "Compares the patch table, the capture table and the restore table of the journaling wrappers as sets of "
     "resolved targets; checks the shape of every wrapper (CFG: exactly one call of the original on every path, "
@@ -510,7 +514,56 @@ def rule_r3_sigs_r5(ctx):
                   construct=f"field {fname}: {t}")
 
 
+def rule_r7(ctx):
+    repo = ctx.repo
+    wmod = repo.module(WR)
+    wrap_f = repo.func(f"{WR}:wrap_ir_classes")
+    patched = set()
+    for target, _value, _stmt in _assign_targets(wrap_f):
+        hit = _resolve_target(ctx, wmod, target)
+        if isinstance(hit, FuncInfo):
+            patched.add(hit.key)
+    ctx.require(len(patched) >= 10, f"only {len(patched)} patched methods resolved")
+    n = 0
+    for mn in ("onnx_ir._core", "onnx_ir._graph_containers"):
+        for c in repo.module(mn).classes.values():
+            init = c.methods.get("__init__")
+            if init is None or not c.slots:
+                continue
+            selfn = init.params[0]
+            cfg = None
+            for call in calls_in(init):
+                if not any(isinstance(a, ast.Name) and a.id == selfn for a in call.args):
+                    continue
+                try:
+                    hits, _ = ctx.typer.callees(init, call, False)
+                except Exception:
+                    hits = []
+                if not any(h.key in patched for h in hits):
+                    continue
+                n += 1
+                cfg = cfg or CFG(init.node)
+                cn = cfg.nodes_containing(call)
+                missing = []
+                for slot in c.slots:
+                    if slot.startswith("__"):
+                        continue
+                    stores = [x for x in own_nodes(init.node) if isinstance(x, (ast.Assign, ast.AnnAssign)) and any(
+                        isinstance(t, ast.Attribute) and isinstance(t.value, ast.Name) and t.value.id == selfn and t.attr == slot
+                        for t in (x.targets if isinstance(x, ast.Assign) else [x.target]))]
+                    if stores and not any(cn and cfg.node_of(st) and cfg.dominates(cfg.node_of(st)[0], cn[0]) for st in stores):
+                        missing.append(slot)
+                ctx.check("R7", f"{init.local}: every field is set before {norm(call)[:50]}", not missing, init, call,
+                          f"`{norm(call)}` hands the object to an instrumented method before {missing} is assigned: inside a journal the method's "
+                          "entry is built from repr(self), which reads the missing field - the constructor raises AttributeError inside a journal "
+                          "and succeeds outside",
+                          how="stores of every __slots__ field dominate the call that passes self to a patched method",
+                          construct=f"instrumented call before {missing}")
+    ctx.require(n >= 1, "no constructor hands self to an instrumented method")
+
+
 def run(ctx):
+    rule_r7(ctx)
     rule_r1(ctx)
     rule_r2(ctx)
     rule_r3_r4(ctx)
